@@ -15,6 +15,7 @@ import SSEPyVerif.Props.C01
 import SSEPyVerif.Proofs.Schemes.ChainComplete
 import SSEPyVerif.Model.Schemes.Wire
 import SSEPyVerif.Model.Schemes.SSE2
+import SSEPyVerif.Generated.ConfigFacts
 namespace SSEPy.C08
 open SSEPy.Sch
 
@@ -341,5 +342,78 @@ theorem DP17.refused_or_correct (raw : RawCfg) (lv : Leaves) (hl : LeafLaws lv) 
       exact Or.inr ⟨edb, t', rfl, fun hidl hinj hfresh tag vtag etag htk hclean hbeyond =>
         C01.DP17.search_stored raw cfg hc lv hl k1 k2 k3 db t t' edb hs hkeys hidl hinj hperm hfresh w ids hm tag vtag etag htk
           hclean hbeyond⟩
+
+
+/-! ### the lists are the SOURCE's lists (regenerated from `schemes/*/*/config.py` on every run)
+
+  `Generated/ConfigFacts.lean` holds, per scheme, the list literal `_parse_config` hands to `check_param_exist` (`required`), every
+  key it reads from the configuration dictionary (`reads`) and whether the existence check is its first statement.  The Lean
+  builders check exactly the source's lists; every field a builder reads is one it requires (SSE-2 reads two primitive names it
+  does not list: a missing name falls through to the primitive look-up on the empty string, which refuses it — also while the
+  configuration is built).  A field dropped from a check list, or a new field read without being required, changes the generated
+  file and these theorems stop checking. -/
+
+open SSEPy.Generated.Config in
+theorem required_lists_are_source :
+    PiBas_required = ["param_lambda", "prf_f_output_length", "prf_f", "ske"] ∧
+    PiPack_required = ["param_lambda", "param_B", "prf_f_output_length", "param_identifier_size", "prf_f", "ske"] ∧
+    PiPtr_required = ["param_lambda", "param_B", "param_b", "prf_f_output_length", "param_identifier_size", "prf_f", "ske"] ∧
+    Pi2Lev_required = ["param_lambda", "param_B", "param_b", "param_B_prime", "param_b_prime", "prf_f_output_length",
+                       "param_identifier_size", "prf_f", "ske"] ∧
+    CT14_required = ["param_k", "param_k_prime", "param_l", "param_identifier_size", "prf_f", "prf_f_prime", "ske"] ∧
+    ANSS16_required = ["param_lambda", "param_k", "param_k_prime", "param_l", "param_l_prime", "param_identifier_size", "prf", "ske"] ∧
+    SSE1_required = ["param_k", "param_l", "param_s", "param_dictionary_size", "param_identifier_size",
+                     "prp_pi", "prp_psi", "prf_f", "ske1", "ske2"] ∧
+    SSE2_required = ["param_k", "param_l", "param_n", "param_max_file_size"] ∧
+    DP17_required = ["param_lambda", "param_actual_storage_level_ratio", "param_L", "param_identifier_size", "rnd", "prf_f", "hash_h"] := by
+  decide
+
+open SSEPy.Generated.Config in
+/-- a configuration that lacks (or marks -1) a parameter the SOURCE's `check_param_exist` list names is refused by the builder -/
+theorem missing_required_param_refused (raw : RawCfg) :
+    (Lacks PiBas_required raw → PiBas.cfgBuild raw = .error .valueError) ∧
+    (Lacks PiPack_required raw → PiPack.cfgBuild raw = .error .valueError) ∧
+    (Lacks PiPtr_required raw → PiPtr.cfgBuild raw = .error .valueError) ∧
+    (Lacks Pi2Lev_required raw → Pi2Lev.cfgBuild raw = .error .valueError) ∧
+    (Lacks CT14_required raw → CT14.cfgBuild raw = .error .valueError) ∧
+    (Lacks ANSS16_required raw → ANSS16.cfgBuild raw = .error .valueError) ∧
+    (Lacks SSE1_required raw → SSE1.cfgBuild raw = .error .valueError) ∧
+    (Lacks SSE2_required raw → SSE2.cfgBuild raw = .error .valueError) ∧
+    (Lacks DP17_required raw → DP17.cfgBuild raw = .error .valueError) := by
+  obtain ⟨h1, h2, h3, h4, h5, h6, h7, h8, h9⟩ := required_lists_are_source
+  rw [h1, h2, h3, h4, h5, h6, h7, h8, h9]
+  exact ⟨missing_param_refused_PiBas raw, missing_param_refused_PiPack raw, missing_param_refused_PiPtr raw,
+    missing_param_refused_Pi2Lev raw, missing_param_refused_CT14 raw, missing_param_refused_ANSS16 raw,
+    missing_param_refused_SSE1 raw, missing_param_refused_SSE2 raw, missing_param_refused_DP17 raw⟩
+
+open SSEPy.Generated.Config in
+/-- every field a builder reads is one it requires; the existence check is the first statement of every `_parse_config` -/
+theorem reads_are_required :
+    (∀ f ∈ PiBas_reads, f ∈ PiBas_required) ∧ (∀ f ∈ PiPack_reads, f ∈ PiPack_required) ∧
+    (∀ f ∈ PiPtr_reads, f ∈ PiPtr_required) ∧ (∀ f ∈ Pi2Lev_reads, f ∈ Pi2Lev_required) ∧
+    (∀ f ∈ CT14_reads, f ∈ CT14_required) ∧ (∀ f ∈ ANSS16_reads, f ∈ ANSS16_required) ∧
+    (∀ f ∈ SSE1_reads, f ∈ SSE1_required) ∧ (∀ f ∈ DP17_reads, f ∈ DP17_required) ∧
+    (∀ f ∈ SSE2_reads, f ∈ SSE2_required ∨ f = "prp_pi" ∨ f = "ske") ∧
+    (PiBas_checked_first && PiPack_checked_first && PiPtr_checked_first && Pi2Lev_checked_first && CT14_checked_first &&
+     ANSS16_checked_first && SSE1_checked_first && SSE2_checked_first && DP17_checked_first) = true := by
+  decide
+
+/-- SSE-2's two primitive names are not in its existence list; a configuration without them is refused by the look-up -/
+theorem SSE2.missing_primitive_refused (raw : RawCfg) (h : raw.get "prp_pi" = none ∨ raw.get "ske" = none) :
+    ∃ e, SSE2.cfgBuild raw = .error e := by
+  have e1 : checkBitPrp "" = .error .valueError := by decide +kernel
+  have e2 : isAesCbcName "" = false := by decide +kernel
+  cases hc : SSE2.cfgBuild raw with
+  | error e => exact ⟨e, rfl⟩
+  | ok cfg =>
+    exfalso
+    unfold SSE2.cfgBuild at hc
+    simp only [bind, Except.bind] at hc
+    repeat (split at hc; · cases hc)
+    rcases h with h | h
+    · have : getName raw "prp_pi" = "" := by simp [getName, h]
+      simp_all
+    · have : getName raw "ske" = "" := by simp [getName, h]
+      simp_all [throw, throwThe, MonadExceptOf.throw]
 
 end SSEPy.C08
